@@ -408,7 +408,11 @@ func sendPing6(r *stack.Route, ident uint16, data buffer.View) *tcpip.Error {
 	}
 
 	icmpv6.SetChecksum(0)
-	icmpv6.SetChecksum(^header.Checksum(icmpv6, header.Checksum(data, 0)))
+	// The ICMPv6 checksum covers the IPv6 pseudo-header (RFC 4443, 2.3).
+	// ICMPv6 校验和包含伪首部
+	xsum := header.PseudoHeaderChecksum(header.ICMPv6ProtocolNumber, r.LocalAddress, r.RemoteAddress)
+	xsum = header.ChecksumCombine(xsum, uint16(len(icmpv6)+len(data)))
+	icmpv6.SetChecksum(^header.Checksum(icmpv6, header.Checksum(data, xsum)))
 
 	return r.WritePacket(hdr, data.ToVectorisedView(), header.ICMPv6ProtocolNumber, r.DefaultTTL())
 }
